@@ -1,29 +1,18 @@
-"""Per-property configuration of ./check."""
+"""Per-property configuration of ./check: collected from checklib/p_cNN.py (one module per property).
+Each module defines PROP (dict, see check), MANIFEST (dict: text, ref, technique, note) and optionally
+EXTRACT_DEPS (extra .vo targets the extraction needs) and COQCHK (module names for coqchk)."""
+import glob, os, importlib.util
 
-# .vo files the extraction needs (beyond Inst.vo)
+PROPS = {}
+MANIFESTS = {}
 EXTRACT_DEPS = []
-# modules re-checked by coqchk in the thorough tier
-COQCHK_MODULES = ['TV.Properties.C01']
-
-
-def c01_trivial(inp, out):
-    # trivial = malformed type code (rejected before anything else is looked at)
-    try:
-        t = int(inp.split(';')[1].strip().split(':')[2])
-    except Exception:
-        return False
-    return t < 2 or t > 8
-
-
-PROPS = {
-    'C01': dict(
-        model_args=['fixed'],
-        trivial=c01_trivial,
-        rule='(position, move) pairs: positions from random legal playouts (6 policies, sizes 3..8, default and custom reserves, '
-             'past-the-end play) and random well-formed constructed boards (stacks up to 56 high) x (sampled AllMoves moves + malformed '
-             'moves: whole int8 coordinate range, all type codes, junk Slides words, carries around the limits, dense off-board grid); '
-             'non-trivial = type code in 2..8; distinct = distinct (position, move) strings',
-        assumptions=['stack heights of source and rules successor <= 64 (documented representation limit)',
-                     'Pass (type 1) is outside the claim'],
-    ),
-}
+COQCHK_MODULES = []
+for f in sorted(glob.glob(os.path.join(os.path.dirname(__file__), 'p_c*.py'))):
+    name = os.path.basename(f)[2:-3].upper()
+    spec = importlib.util.spec_from_file_location('p_' + name, f)
+    m = importlib.util.module_from_spec(spec)
+    spec.loader.exec_module(m)
+    PROPS[name] = m.PROP
+    MANIFESTS[name] = m.MANIFEST
+    EXTRACT_DEPS += getattr(m, 'EXTRACT_DEPS', [])
+    COQCHK_MODULES += getattr(m, 'COQCHK', ['TV.Properties.' + name])
